@@ -120,12 +120,23 @@ def harness(n, d):
         diff = z3.simplify(symnum.toz(hv) - symnum.toz(tot), som=True)
         if z3.is_rational_value(diff) and diff.as_fraction() == 0:
             return z3.BoolVal(True)
-        return diff == 0
+        # identity modulo the equalities implied by the path condition: merge variables the path forces equal
+        sv = symnum.cur().solver; allv = [v for row in P for v in row] + R; rep = {}
+        for i, a in enumerate(allv):
+            for b in allv[:i]:
+                if b.get_id() in rep: continue
+                sv.push(); sv.add(a != b); same = sv.check() == z3.unsat; sv.pop()
+                if same: rep[a.get_id()] = (a, b); break
+        sub = [(a, b) for a, b in rep.values()]
+        diff2 = z3.simplify(z3.substitute(symnum.toz(hv) - symnum.toz(tot), *sub), som=True)
+        if z3.is_rational_value(diff2) and diff2.as_fraction() == 0:
+            return z3.BoolVal(True)
+        return diff2 == 0
     ex = Explorer()
     t = time.time()
     r = ex.run_all(fn, pre)
     print(n, d, r[0], "paths", ex.paths, "checks", ex.checks, "t=%.1f" % (time.time()-t), flush=True)
     if r[0] == "cex": print(r[1])
 
-for n, d in [(3,2),(4,2),(2,3),(3,3),(4,3)]:
+for n, d in [(3,3),(4,3)]:
     harness(n, d)
